@@ -37,6 +37,17 @@ add("C02", "exploration", "DESIGN.md §2 C02",
     "TLS-ness is simulated the way the repository's tests do (request object is an ssl.SSLSocket instance); "
     "shape questions the documents leave open are accepted either way")
 
+add("C03", "exploration", "DESIGN.md §2 C03",
+    "Hypothesis-generated sites x malformed/mutated requests in all protocol syntaxes, decided by client-side "
+    "response grammars + no-internal-error oracle; read-only request histories compared with solo replies "
+    "(history independence)",
+    "Generated sites contain every content kind of the quantifier; requests are structured mutations plus raw "
+    "bytes; each reply must parse under an independent per-protocol grammar, no exception other than the "
+    "not-found signal may be logged or escape, and every step of a 2-10 request history (cache on, module "
+    "state kept) must equal the solo reply. Sampled exploration; bounded time is a 60 s watchdog only.",
+    "pristine state for the solo reply is emulated by deleting cache files and resetting the server's lazy "
+    "module tables; plain-Gopher replies have no status line, so only emptiness and menu syntax are judged")
+
 NOT_APPLICABLE = []
 
 
